@@ -20,8 +20,11 @@ Validity rules of the generator (= the property's "spec-valid"):
 """
 from __future__ import annotations
 
+import ast
 import itertools
 import random
+import re
+from pathlib import Path
 
 STRS = [
     "", "a", "x y", "123", "-7", "0", "true", "false", "1", "null", "héllo ✓", "file:///tmp/a", "text", "2.0", "A" * 40,
@@ -39,6 +42,108 @@ INTS = [0, 1, 0, 1, -1, 2, 42, 100, 2**31, 2**53 + 1, -(2**63), 10**20]
 FLOATS = [0.5, 0.25, 1.5, -2.75, 1e-3, 3.0, 1.0, 0.0, 0, 1, 7, 1e100, 2.5e-7]
 EXTRA_NAMES = ["x", "extra", "note", "_custom", "X-Y", "data2", "annotations2", "kind", "self", " pad ", "tab\t", "", "\U0001F600"]
 ANY_KEYS = ["a", "b", "type", "text", "meta", "_meta", "schema", "schema_", "progressToken", "n", " k ", "", "nl\n"]
+
+
+# ---------------------------------------------------------------------------- constants from the source
+def harvest_constants(path: Path):
+    """string / int constants of one source file (dict keys and values, comparisons, `in (...)`
+    tuples, Literal[...] arguments, defaults, map tables): candidate "magic" values a hook or validator
+    may treat specially.  Docstrings, f-string pieces and anything with whitespace are left out."""
+    try:
+        tree = ast.parse(path.read_text())
+    except (OSError, SyntaxError):
+        return [], [], []
+    skip = set()
+    for n in ast.walk(tree):
+        if isinstance(n, ast.Expr) and isinstance(n.value, ast.Constant):
+            skip.add(id(n.value))
+        if isinstance(n, ast.JoinedStr):
+            for v in ast.walk(n):
+                skip.add(id(v))
+    strs, ints = set(), set()
+    for n in ast.walk(tree):
+        if isinstance(n, ast.Constant) and id(n) not in skip:
+            if isinstance(n.value, str) and 0 < len(n.value) <= 32 and not re.search(r"\s", n.value):
+                strs.add(n.value)
+            elif isinstance(n.value, int) and not isinstance(n.value, bool) and abs(n.value) < 2 ** 63:
+                ints.add(n.value)
+    imports = []
+    for n in tree.body:
+        if isinstance(n, ast.ImportFrom):
+            imports.append((n.module or "", n.level))
+    return sorted(strs), sorted(ints), imports
+
+
+def case_variants(s: str):
+    """simple spelling variants: snake_case <-> camelCase / PascalCase / kebab-case, upper, lower"""
+    out = [s, s.lower(), s.upper()]
+    snake = re.sub(r"(?<=[a-z0-9])([A-Z])", r"_\1", s).replace("-", "_").lower()
+    out += [snake, snake.upper(), snake.replace("_", "-")]
+    parts = [p for p in re.split(r"[_\-/.]+", s) if p]
+    if len(parts) > 1:
+        out.append(parts[0].lower() + "".join(p[:1].upper() + p[1:] for p in parts[1:]))
+        out.append("".join(p[:1].upper() + p[1:] for p in parts))
+    seen, res = set(), []
+    for v in out:
+        if v and v not in seen:
+            seen.add(v)
+            res.append(v)
+    return res
+
+
+def magic_values(classes: dict, src_root: Path) -> dict:
+    """{class id: {"strs": [...], "imported": [...], "ints": [...]}} — constants of the module that defines
+    the class (with spelling variants, and variants of the class's own Literal values) and, separately,
+    of the package modules that module imports from"""
+    cache = {}
+
+    def mod(name):
+        if name not in cache:
+            p = src_root / (name.replace(".", "/") + ".py")
+            if not p.exists():
+                p = src_root / name.replace(".", "/") / "__init__.py"
+            cache[name] = harvest_constants(p)
+        return cache[name]
+
+    out = {}
+    for cid, c in classes.items():
+        strs, ints, imports = mod(c["module"])
+        lits = []
+
+        def find_lits(t):
+            if t["k"] == "lit":
+                lits.extend(t["vals"])
+            for k in ("t", "kt"):
+                if isinstance(t.get(k), dict):
+                    find_lits(t[k])
+            for m in t.get("ts", []):
+                find_lits(m)
+
+        for f in c["fields"]:
+            find_lits(f["ty"])
+        primary, seen = [], set()
+        for s0 in list(lits) + list(strs):
+            for v in case_variants(s0):
+                if v not in seen:
+                    seen.add(v)
+                    primary.append(v)
+        imported = []
+        pkg = c["module"].split(".")
+        for m, level in imports:
+            if level:
+                base = pkg[:-level]
+                name = ".".join(base + ([m] if m else []))
+            else:
+                name = m
+            if not name.startswith("chuk_mcp"):
+                continue
+            for s0 in mod(name)[0]:
+                if s0 not in seen:
+                    seen.add(s0)
+                    imported.append(s0)
+        near = sorted({i + d for i in ints for d in (-1, 0, 1)})
+        out[cid] = {"strs": primary, "imported": imported, "ints": near}
+    return out
 
 
 def any_value(rng: random.Random, depth=0, allow_null=True):
@@ -256,24 +361,24 @@ class Gen:
                 out.append((f, r))
         return out
 
-    def with_str(self, t, sval):
-        """the smallest value of type `t` that carries the string `sval` at a `str` position reachable
+    def with_str(self, t, sval, leaf="str"):
+        """the smallest value of type `t` that carries `sval` at a `str` (or `leaf`) position reachable
         without entering another model class (None when `t` has no such position)"""
         k = t["k"]
-        if k == "str":
+        if k == leaf:
             return sval
         if k == "opt":
-            return self.with_str(t["t"], sval)
+            return self.with_str(t["t"], sval, leaf)
         if k == "list":
-            v = self.with_str(t["t"], sval)
+            v = self.with_str(t["t"], sval, leaf)
             return None if v is None else [v, v]
         if k == "dict":
-            v = self.with_str(t["t"], sval)
+            v = self.with_str(t["t"], sval, leaf)
             return None if v is None else {"k": v, " k ": v}
         if k == "union":
             for m in t["ts"]:
                 if m["k"] != "lit":
-                    v = self.with_str(m, sval)
+                    v = self.with_str(m, sval, leaf)
                     if v is not None:
                         return v
         return None
